@@ -176,6 +176,10 @@ fn interleavings(segments: &[u64]) -> f64 {
 struct Program {
     kind: usize,
     threads: Vec<Vec<usize>>,
+    /// short-lived threads (one query each) started and joined after the first thread has been
+    /// started and before the others are: per-thread slots handed out by a counter collide when two
+    /// live threads are a multiple of the table size apart
+    fillers: usize,
 }
 
 fn main() {
@@ -259,32 +263,41 @@ fn main() {
     for kind in 0..KINDS.len() {
         let pairs: Vec<(usize, usize)> = if kind == 3 { vec![(1, 0), (0, 2), (4, 1)] } else { (0..5).flat_map(|a| (0..5).map(move |b| (a, b))).collect() };
         for (a, b) in pairs {
-            programs.push(Program { kind, threads: vec![vec![a], vec![b]] });
+            programs.push(Program { kind, threads: vec![vec![a], vec![b]], fillers: 0 });
         }
         if kind != 2 {
             // two different values out of range, one of them asked twice
-            programs.push(Program { kind, threads: vec![vec![3, 3], vec![6]] });
-            programs.push(Program { kind, threads: vec![vec![6, 6], vec![3]] });
-            programs.push(Program { kind, threads: vec![vec![3], vec![6]] });
-            programs.push(Program { kind, threads: vec![vec![6], vec![1]] });
+            programs.push(Program { kind, threads: vec![vec![3, 3], vec![6]], fillers: 0 });
+            programs.push(Program { kind, threads: vec![vec![6, 6], vec![3]], fillers: 0 });
+            programs.push(Program { kind, threads: vec![vec![3], vec![6]], fillers: 0 });
+            programs.push(Program { kind, threads: vec![vec![6], vec![1]], fillers: 0 });
+        }
+        if kind == 0 || (kind == 1 && !quick) {
+            let table_sizes: &[usize] = if quick { &[15] } else { &[7, 15, 63] };
+            for &fillers in table_sizes {
+                programs.push(Program { kind, threads: vec![vec![1], vec![0]], fillers });
+                if !quick {
+                    programs.push(Program { kind, threads: vec![vec![4], vec![1]], fillers });
+                }
+            }
         }
         if kind == 0 || kind == 1 {
             // batches long enough for code that spreads them over worker threads of its own
-            programs.push(Program { kind, threads: vec![vec![8], vec![7]] });
-            programs.push(Program { kind, threads: vec![vec![7], vec![7]] });
+            programs.push(Program { kind, threads: vec![vec![8], vec![7]], fillers: 0 });
+            programs.push(Program { kind, threads: vec![vec![7], vec![7]], fillers: 0 });
         }
         if kind == 0 || kind == 4 {
             // a 1100-element batch next to an out-of-range query and next to an ordinary query
-            programs.push(Program { kind, threads: vec![vec![5], vec![3]] });
+            programs.push(Program { kind, threads: vec![vec![5], vec![3]], fillers: 0 });
             if !quick {
-                programs.push(Program { kind, threads: vec![vec![5], vec![1]] });
+                programs.push(Program { kind, threads: vec![vec![5], vec![1]], fillers: 0 });
             }
         }
         if kind != 2 {
-            programs.push(Program { kind, threads: vec![vec![1], vec![0], vec![2]] });
+            programs.push(Program { kind, threads: vec![vec![1], vec![0], vec![2]], fillers: 0 });
             if !quick {
-                programs.push(Program { kind, threads: vec![vec![1, 0], vec![2, 0]] });
-                programs.push(Program { kind, threads: vec![vec![0, 1], vec![1, 0]] });
+                programs.push(Program { kind, threads: vec![vec![1, 0], vec![2, 0]], fillers: 0 });
+                programs.push(Program { kind, threads: vec![vec![0, 1], vec![1, 0]], fillers: 0 });
             }
         }
     }
@@ -316,10 +329,21 @@ fn main() {
         {
             let threads = p.threads.clone();
             let kind = p.kind;
+            let fillers = p.fillers;
             let r = std::panic::catch_unwind(std::panic::AssertUnwindSafe(|| {
                 shuttle::Runner::new(nimc::sched::PbDfs::probe(steps.clone()), shuttle::Config::new()).run(move || {
                     let w: Arc<Box<dyn Subject>> = Arc::new(build(kind));
-                    let hs: Vec<_> = threads.iter().cloned().map(|ops| { let w = w.clone(); shuttle::thread::spawn(move || { for &o in &ops { let _ = w.op(o); } }) }).collect();
+                    let mut hs = vec![];
+                    for (t, ops) in threads.iter().cloned().enumerate() {
+                        let w2 = w.clone();
+                        hs.push(shuttle::thread::spawn(move || { for &o in &ops { let _ = w2.op(o); } }));
+                        if t == 0 {
+                            for _ in 0..fillers {
+                                let w3 = w.clone();
+                                let _ = shuttle::thread::spawn(move || { let _ = w3.op(0); }).join();
+                            }
+                        }
+                    }
                     for h in hs { let _ = h.join(); }
                 })
             }));
@@ -336,7 +360,7 @@ fn main() {
             capped.fetch_add(1, AO::SeqCst);
             return;
         }
-        let key = format!("instr:{}:{:?}:{}", KINDS[p.kind], p.threads, if bound == usize::MAX { "all".to_string() } else { format!("pb{bound}") }).replace(' ', "");
+        let key = format!("instr:{}:{:?}{}:{}", KINDS[p.kind], p.threads, if p.fillers > 0 { format!("+{}fillers", p.fillers) } else { String::new() }, if bound == usize::MAX { "all".to_string() } else { format!("pb{bound}") }).replace(' ', "");
         if let Some(k) = &only {
             if k != &key {
                 return;
@@ -370,6 +394,7 @@ fn main() {
         let fb = first_bad.clone();
         let threads = p.threads.clone();
         let kind = p.kind;
+        let fillers = p.fillers;
         let mut cfg = shuttle::Config::new();
         cfg.failure_persistence = shuttle::FailurePersistence::None;
         // a program whose search is still running after its share of the wall time is stopped and counted
@@ -379,14 +404,17 @@ fn main() {
         let r = std::panic::catch_unwind(std::panic::AssertUnwindSafe(|| {
             runner.run(move || {
                 let w: Arc<Box<dyn Subject>> = Arc::new(build(kind));
-                let hs: Vec<_> = threads
-                    .iter()
-                    .cloned()
-                    .map(|ops| {
-                        let w = w.clone();
-                        shuttle::thread::spawn(move || ops.iter().map(|&o| (o, w.op(o))).collect::<Vec<_>>())
-                    })
-                    .collect();
+                let mut hs = vec![];
+                for (t, ops) in threads.iter().cloned().enumerate() {
+                    let w2 = w.clone();
+                    hs.push(shuttle::thread::spawn(move || ops.iter().map(|&o| (o, w2.op(o))).collect::<Vec<_>>()));
+                    if t == 0 {
+                        for _ in 0..fillers {
+                            let w3 = w.clone();
+                            let _ = shuttle::thread::spawn(move || { let _ = w3.op(0); }).join();
+                        }
+                    }
+                }
                 for (t, h) in hs.into_iter().enumerate() {
                     for (o, got) in h.join().expect("thread") {
                         if Some(&got) != canon[o].as_ref() {
